@@ -814,7 +814,7 @@ def check(run):
         run.log("exhaustive part: %d + %d instances in %.0fs" % (len(i2), len(i3), time.time() - t0))
         inst += i2 + i3
         failures += f2 + f3
-        run.cov["exhaustive"] = {"default_option_set": {"vocabulary": TINY_VOCAB, "max_len": 4, "blocks": len(tiny4)},
+        run.cov["exhaustive_part"] = {"default_option_set": {"vocabulary": TINY_VOCAB, "max_len": 4, "blocks": len(tiny4)},
                                  "four_option_sets": {"vocabulary": TINY_MEM_VOCAB, "max_len": 3, "blocks": len(tiny3)}}
     for f in failures:
         run.notes.append("chunk lost (%s): %s %s" % (f["status"], opt_name(f["term"], f["flags"]), f["items"]))
